@@ -352,3 +352,27 @@ func (p *Prog) chanKey(v ssa.Value) string {
 	sort.Strings(ks)
 	return strings.Join(ks, "|")
 }
+
+// chanIsField: every creation site v may denote is stored in field
+// structName.field (and there is at least one).
+func (p *Prog) chanIsField(v ssa.Value, structName, field string) bool {
+	cf := p.chanFlow()
+	for {
+		ct, ok := v.(*ssa.ChangeType)
+		if !ok {
+			break
+		}
+		v = ct.X
+	}
+	ms := cf.sites(v)
+	if len(ms) == 0 {
+		return false
+	}
+	fs := cf.pts["F:"+structName+"."+field]
+	for _, m := range ms {
+		if !fs[m] {
+			return false
+		}
+	}
+	return true
+}
